@@ -62,7 +62,13 @@ def gen_cases(rng, tier):
         rid = rng.choice([1, 65535])
         role = rng.choice([1, 2, 3])
         contents = {t: [rng.randrange(256) for _ in range(rng.randrange(0, 80))] for t in ROLE_STREAMS[role]}
-        recs = minimal_preamble(rid, role) + streams_part(rng, rid, role, contents, junk_rate=0.6)
+        if rng.random() < 0.5:
+            # reply-owing records INSIDE the preamble: the request parser's last parse call then produces output right before the
+            # hand-off to the stream parser (whose output buffer must start empty: nothing may be emitted twice)
+            pre, _ = preamble(rng, rid, role, 1, rand_pairs(rng, rng.randrange(0, 3), 20), junk_rate=0.7, idle=0)
+        else:
+            pre = minimal_preamble(rid, role)
+        recs = pre + streams_part(rng, rid, role, contents, junk_rate=0.6)
         w = flat(recs)
         B = rng.choice([64, 128, 8192])
         ops = C02.gen_ops(rng, len(w), role, B) + [[5, 0]]
@@ -95,7 +101,7 @@ def expected_req_output(wire, maxc):
 def oracle(line, impl_line):
     mode, a = parse_case(line)
     o = parse_out(impl_line)
-    if o is None or any(x == [888888] for x in o):
+    if o is None or any(x == [18446744073710440504] for x in o):
         return "implementation crashed or panicked"
     if mode == "req_run":
         wire, maxc = a[2], a[1][0]
@@ -113,10 +119,10 @@ def oracle(line, impl_line):
     if mode == "str_run":
         wire, maxc, ops = a[2], a[1][0], a[3:]
         recs, _ = parse_records(wire)
-        k = 0
-        while not (recs[k][0] == PARAMS and not recs[k][2]):
-            k += 1
         rid = recs[0][1]
+        k = 0
+        while not (recs[k][0] == PARAMS and recs[k][1] == rid and not recs[k][2]):
+            k += 1
         rep, _ = replies_for(recs[k + 1:], maxc, ("stream", rid))
         exp = [b for _, rb in rep for b in rb]
         # reconstruct everything the parser appended to its output buffer
